@@ -14,6 +14,7 @@
 #include <time.h>
 #include <link.h>
 #include <stdarg.h>
+#include <fcntl.h>
 #include "safe_lib.h"
 #include "safe_str_lib.h"
 #include "safe_mem_lib.h"
@@ -149,6 +150,123 @@ P(strispassword_s) { strispassword_s(v ? "Passw0rd!x" : "short", 20); }
 P(fopen_s) { FILE *f = NULL; fopen_s(&f, "/dev/null", v ? "r" : "w"); if (f) fclose(f); }
 P(tmpfile_s) { FILE *f = NULL; tmpfile_s(&f); if (f) fclose(f); (void)v; }
 
+/* ---- the remaining entry points: every exported function has a probe ---- */
+static FILE *devnull(void) { static FILE *f; if (!f) f = fopen("/dev/null", "w"); return f; }
+static long vfcall(int which, FILE *f, ...) {
+    va_list ap; long r = 0;
+    va_start(ap, f);
+    switch (which) {
+    case 0: r = vfprintf_s(f, "%d %s\n", ap); break;
+    case 1: r = vfwprintf_s(f, L"%d %ls\n", ap); break;
+    case 2: r = vprintf_s("%d %s\n", ap); break;
+    case 3: r = vwprintf_s(L"%d %ls\n", ap); break;
+    }
+    va_end(ap);
+    return r;
+}
+static long vscall(int which, const void *in, ...) {
+    va_list ap; long r = 0;
+    va_start(ap, in);
+    switch (which) {
+    case 0: r = vsscanf_s((const char *)in, "%d %3s", ap); break;
+    case 1: r = vswscanf_s((const wchar_t *)in, L"%d", ap); break;
+    case 2: r = vfscanf_s((FILE *)in, "%d", ap); break;
+    case 3: r = vfwscanf_s((FILE *)in, L"%d", ap); break;
+    }
+    va_end(ap);
+    return r;
+}
+static int out_saved = -1;
+static void out_off(void) { fflush(stdout); out_saved = dup(1); { int n = open("/dev/null", 1); dup2(n, 1); close(n); } }
+static void out_on(void) { fflush(stdout); dup2(out_saved, 1); close(out_saved); }
+P(stpncpy_s) { errno_t e; stpncpy_s(d, 64, STR(v), 4 + v, &e); }
+P(strcpyfld_s) { strcpyfld_s(d, 32, STR(v), 4 + v); }
+P(strcpyfldin_s) { strcpyfldin_s(d, 32, STR(v), 4 + v); }
+P(strcpyfldout_s) { strcpyfldout_s(d, 32, STR(v), 4 + v); }
+P(memccpy_s) { memccpy_s(d, 64, STR(v), 's', 8 + v); }
+P(memcpy16_s) { static uint16_t a[16], b[16] = {1, 2, 3}; b[0] += v; memcpy16_s(a, 32, b, 8 + v); }
+P(memcpy32_s) { static uint32_t a[16], b[16] = {1, 2, 3}; b[0] += v; memcpy32_s(a, 64, b, 8 + v); }
+P(memmove16_s) { static uint16_t a[16] = {1, 2, 3, 4}; memmove16_s(a + 1, 20, a, 4 + v); }
+P(memmove32_s) { static uint32_t a[16] = {1, 2, 3, 4}; memmove32_s(a + 1, 40, a, 4 + v); }
+P(wmemcpy_s) { wmemcpy_s(wd, 64, WSTR(v), 4 + v); }
+P(wmemmove_s) { wmemmove_s(wd + 1, 60, wd, 8 + v); }
+P(memset16_s) { static uint16_t a[32]; memset16_s(a, 64, 7 + v, 20 + v); }
+P(memset32_s) { static uint32_t a[32]; memset32_s(a, 128, 7 + v, 20 + v); }
+P(memzero16_s) { static uint16_t a[32]; memzero16_s(a, 20 + v); }
+P(memzero32_s) { static uint32_t a[32]; memzero32_s(a, 20 + v); }
+P(strzero_s) { strcpy(d, STR(v)); strzero_s(d, 64); }
+P(strset_s) { strcpy(d, STR(v)); strset_s(d, 64, 'x' + v); }
+P(strnset_s) { strcpy(d, STR(v)); strnset_s(d, 64, 'x' + v, 3 + v); }
+P(wcsset_s) { wcscpy(wd, WSTR(v)); wcsset_s(wd, 64, L'x' + v); }
+P(wcsnset_s) { wcscpy(wd, WSTR(v)); wcsnset_s(wd, 64, L'x' + v, 3 + v); }
+P(strtouppercase_s) { strcpy(d, v ? "abc" : "Xy"); strtouppercase_s(d, 64); }
+P(wcsupr_s) { wcscpy(wd, v ? L"abc" : L"Xy"); wcsupr_s(wd, 10); }
+P(strljustify_s) { strcpy(d, v ? "   abc" : " Xy"); strljustify_s(d, 64); }
+P(strremovews_s) { strcpy(d, v ? "   abc  " : " Xy "); strremovews_s(d, 64); }
+P(strnterminate_s) { strcpy(d, STR(v)); strnterminate_s(d, 4 + v); }
+P(wcscat_s) { wd[0] = 0; wcscat_s(wd, 64, WSTR(v)); }
+P(wcsncat_s) { wd[0] = 0; wcsncat_s(wd, 64, WSTR(v), 4 + v); }
+P(wcsncpy_s) { wcsncpy_s(wd, 64, WSTR(v), 4 + v); }
+P(wcsnlen_s) { wcsnlen_s(WSTR(v), 64); }
+P(strcasecmp_s) { int r; strcasecmp_s(STR(v), 64, "FIRST", &r); }
+P(strcmpfld_s) { int r; strcmpfld_s("abcdef", 4 + v, "abcdxx", &r); }
+P(strcoll_s) { int r; strcoll_s(STR(v), 64, "first", &r); }
+P(strnatcmp_s) { int r; strnatcmp_s("file10", 10, v ? "file9" : "file10", &r); }
+P(strcasestr_s) { char *r; strcpy(d, STR(v)); strcasestr_s(d, 64, "IN", 2, &r); }
+P(wcsstr_s) { wchar_t *r; wcscpy(wd, WSTR(v)); wcsstr_s(wd, 64, L"in", 2, &r); }
+P(strpbrk_s) { char *r; strcpy(d, STR(v)); strpbrk_s(d, 64, "xyi", 3, &r); }
+P(strspn_s) { rsize_t n; strspn_s(STR(v), 64, "fsec", 4, &n); }
+P(strcspn_s) { rsize_t n; strcspn_s(STR(v), 64, "tn", 2, &n); }
+P(strchr_s) { char *r; strchr_s(STR(v), 64, 'i' + v, &r); }
+P(strrchr_s) { char *r; strrchr_s(STR(v), 64, 'i' + v, &r); }
+P(strfirstchar_s) { char *r; strcpy(d, STR(v)); strfirstchar_s(d, 64, 'i' + v, &r); }
+P(strlastchar_s) { char *r; strcpy(d, STR(v)); strlastchar_s(d, 64, 'i' + v, &r); }
+P(memchr_s) { void *r; memchr_s(STR(v), 5, 'i' + v, &r); }
+P(memrchr_s) { void *r; memrchr_s(STR(v), 5, 'i' + v, &r); }
+P(memcmp_s) { int r; memcmp_s("abcd", 4, v ? "abce" : "abcd", 4, &r); }
+P(memcmp16_s) { int r; static uint16_t a[4] = {1, 2, 3, 4}, b[4] = {1, 2, 3, 5}; b[3] = 4 + v; memcmp16_s(a, 4, b, 4, &r); }
+P(memcmp32_s) { int r; static uint32_t a[4] = {1, 2, 3, 4}, b[4] = {1, 2, 3, 5}; b[3] = 4 + v; memcmp32_s(a, 4, b, 4, &r); }
+P(wmemcmp_s) { int r; wmemcmp_s(L"abcd", 4, v ? L"abce" : L"abcd", 4, &r); }
+P(wcscmp_s) { int r; wcscmp_s(L"abcd", 8, v ? L"abce" : L"abcd", 8, &r); }
+P(wcsncmp_s) { int r; wcsncmp_s(L"abcd", 8, v ? L"abce" : L"abcd", 8, 3 + v, &r); }
+P(wcscoll_s) { int r; wcscoll_s(L"abcd", 8, v ? L"abce" : L"abcd", 8, &r); }
+P(strfirstdiff_s) { rsize_t n; strfirstdiff_s("abcdef", 6, v ? "abxdef" : "abcdeg", &n); }
+P(strfirstsame_s) { rsize_t n; strfirstsame_s("abcdef", 6, v ? "xxcdef" : "xbxxxx", &n); }
+P(strlastdiff_s) { rsize_t n; strlastdiff_s("abcdef", 6, v ? "abxdef" : "abcdeg", &n); }
+P(strlastsame_s) { rsize_t n; strlastsame_s("abcdef", 6, v ? "xxcdxx" : "xbxxxx", &n); }
+P(strprefix_s) { strprefix_s(STR(v), 64, v ? "sec" : "fi"); }
+P(strisalphanumeric_s) { strisalphanumeric_s(v ? "abc123" : "a-b", 8); }
+P(strisascii_s) { strisascii_s(v ? "abc" : "a\xe9", 8); }
+P(strisdigit_s) { strisdigit_s(v ? "123" : "12a", 8); }
+P(strishex_s) { strishex_s(v ? "12af" : "12ag", 8); }
+P(strislowercase_s) { strislowercase_s(v ? "abc" : "aBc", 8); }
+P(strismixedcase_s) { strismixedcase_s(v ? "aBc" : "a1c", 8); }
+P(strisuppercase_s) { strisuppercase_s(v ? "ABC" : "aBC", 8); }
+P(strerrorlen_s) { strerrorlen_s(v ? 2 : 401); }
+P(timingsafe_memcmp) { timingsafe_memcmp("abc", v ? "abd" : "abc", 3); }
+P(iswfc) { iswfc(v ? 0xdf : L'A'); }
+P(mbsrtowcs_s) { size_t n; mbstate_t ps; const char *sp = STR(v); memset(&ps, 0, sizeof ps); mbsrtowcs_s(&n, wd, 64, &sp, 60, &ps); }
+P(wcsrtombs_s) { size_t n; mbstate_t ps; const wchar_t *sp = WSTR(v); memset(&ps, 0, sizeof ps); wcsrtombs_s(&n, d, 64, &sp, 60, &ps); }
+P(wcsnorm_decompose_s) { rsize_t n; wcsnorm_decompose_s(wd, 64, v ? L"\x00e9\x0323x" : L"\x00c5", &n, false); }
+P(wcsnorm_reorder_s) { wchar_t b[8] = {L'a', 0x301, 0x323, 0}; if (v) b[3] = 0x300; wcsnorm_reorder_s(wd, 64, b, 3 + v); }
+P(wcsnorm_compose_s) { rsize_t n = 3; wchar_t b[8] = {L'e', 0x323, 0x301, 0}; if (v) b[0] = L'a'; wcsnorm_compose_s(wd, 64, b, &n, false); }
+P(fprintf_s) { fprintf_s(devnull(), v ? "%5d %.3s\n" : "%d %s\n", 5 + v, STR(v)); }
+P(vfprintf_s) { vfcall(0, devnull(), 5 + v, STR(v)); }
+P(fwprintf_s) { fwprintf_s(devnull(), v ? L"%4d %.3ls\n" : L"%d %ls\n", 5 + v, WSTR(v)); }
+P(vfwprintf_s) { vfcall(1, devnull(), 5 + v, WSTR(v)); }
+P(printf_s) { out_off(); printf_s(v ? "%5d %.3s\n" : "%d %s\n", 5 + v, STR(v)); out_on(); }
+P(vprintf_s) { out_off(); vfcall(2, NULL, 5 + v, STR(v)); out_on(); }
+P(vsscanf_s) { int x; char w3[4]; vscall(0, v ? "42 abc" : "7 xy", &x, w3, (rsize_t)4); }
+P(swscanf_s) { int x; swscanf_s(v ? L"42" : L"7", v ? L"%3d" : L"%d", &x); }
+P(vswscanf_s) { int x; vscall(1, v ? L"42" : L"7", &x); }
+P(fscanf_s) { int x; FILE *f = fmemopen((void *)(v ? "42" : "7"), 2 - !v, "r"); if (f) { fscanf_s(f, "%d", &x); fclose(f); } }
+P(vfscanf_s) { int x; FILE *f = fmemopen((void *)(v ? "42" : "7"), 2 - !v, "r"); if (f) { vscall(2, f, &x); fclose(f); } }
+P(fwscanf_s) { int x; FILE *f = fmemopen((void *)(v ? "42" : "7"), 2 - !v, "r"); if (f) { fwscanf_s(f, L"%d", &x); fclose(f); } }
+P(vfwscanf_s) { int x; FILE *f = fmemopen((void *)(v ? "42" : "7"), 2 - !v, "r"); if (f) { vscall(3, f, &x); fclose(f); } }
+P(freopen_s) { FILE *f = fopen("/dev/null", "r"), *g = NULL; if (f) { freopen_s(&g, "/dev/null", v ? "r" : "w", f); fclose(g ? g : f); } }
+P(handlers) { constraint_handler_t o = set_str_constraint_handler_s(v ? ignore_handler_s : hnd); set_str_constraint_handler_s(hnd); (void)o;
+              ignore_handler_s("x", NULL, 400 + v); }
+
 #define E(n) {#n, p_##n}
 static const struct { const char *name; probe_t fn; } PROBES[] = {
     E(strcpy_s), E(strncpy_s), E(strcat_s), E(strncat_s), E(stpcpy_s), E(strcpy_err), E(memcpy_s), E(memmove_s), E(memset_s), E(memzero_s), E(memcpy_err),
@@ -158,6 +276,15 @@ static const struct { const char *name; probe_t fn; } PROBES[] = {
     E(sscanf_s), E(qsort_small), E(qsort_big), E(qsort_mid), E(bsearch_s), E(asctime_small), E(asctime_big), E(ctime_small), E(ctime_big), E(gmtime_s), E(localtime_s),
     E(getenv_s), E(mbstowcs_s), E(wcstombs_s), E(wcrtomb_s), E(wctomb_s), E(wcscpy_s), E(wcsnorm_nfd), E(wcsnorm_nfc), E(wcsnorm_long), E(wcsnorm_marks),
     E(wcsfc_s), E(towfc_s), E(wcsicmp_s), E(wcsnatcmp_s), E(wcslwr_s), E(timingsafe_bcmp), E(strispassword_s), E(fopen_s), E(tmpfile_s),
+    E(stpncpy_s), E(strcpyfld_s), E(strcpyfldin_s), E(strcpyfldout_s), E(memccpy_s), E(memcpy16_s), E(memcpy32_s), E(memmove16_s), E(memmove32_s), E(wmemcpy_s), E(wmemmove_s),
+    E(memset16_s), E(memset32_s), E(memzero16_s), E(memzero32_s), E(strzero_s), E(strset_s), E(strnset_s), E(wcsset_s), E(wcsnset_s), E(strtouppercase_s), E(wcsupr_s),
+    E(strljustify_s), E(strremovews_s), E(strnterminate_s), E(wcscat_s), E(wcsncat_s), E(wcsncpy_s), E(wcsnlen_s), E(strcasecmp_s), E(strcmpfld_s), E(strcoll_s), E(strnatcmp_s),
+    E(strcasestr_s), E(wcsstr_s), E(strpbrk_s), E(strspn_s), E(strcspn_s), E(strchr_s), E(strrchr_s), E(strfirstchar_s), E(strlastchar_s), E(memchr_s), E(memrchr_s),
+    E(memcmp_s), E(memcmp16_s), E(memcmp32_s), E(wmemcmp_s), E(wcscmp_s), E(wcsncmp_s), E(wcscoll_s), E(strfirstdiff_s), E(strfirstsame_s), E(strlastdiff_s), E(strlastsame_s),
+    E(strprefix_s), E(strisalphanumeric_s), E(strisascii_s), E(strisdigit_s), E(strishex_s), E(strislowercase_s), E(strismixedcase_s), E(strisuppercase_s), E(strerrorlen_s),
+    E(timingsafe_memcmp), E(iswfc), E(mbsrtowcs_s), E(wcsrtombs_s), E(wcsnorm_decompose_s), E(wcsnorm_reorder_s), E(wcsnorm_compose_s),
+    E(fprintf_s), E(vfprintf_s), E(fwprintf_s), E(vfwprintf_s), E(printf_s), E(vprintf_s), E(vsscanf_s), E(swscanf_s), E(vswscanf_s), E(fscanf_s), E(vfscanf_s),
+    E(fwscanf_s), E(vfwscanf_s), E(freopen_s), E(handlers),
 };
 
 int main(void) {
